@@ -159,6 +159,9 @@ func c03Table(vid int, v c03Vec, reqs []c03Route, sym *c03Sym) *c03Obs {
 		o.Routes = []c03Route{}
 	}
 	rnd := hx.Rand(int64(vid))
+	// every fourth table is exercised by a client that waits for each answer and then re-uses the message id (allowed once
+	// the earlier request is complete); the others pipeline all requests with distinct ids
+	sameID := vid%4 == 3
 	var mu sync.Mutex
 	ran := map[int64][]c03Label{}
 	var unbRan []c03Label
@@ -195,7 +198,7 @@ func c03Table(vid int, v c03Vec, reqs []c03Route, sym *c03Sym) *c03Obs {
 				resp = r.NewResponse(gldap.WithResponseCode(gldap.ResultSuccess), gldap.WithApplicationCode(gldap.ApplicationExtendedResponse), gldap.WithDiagnosticMessage(diag))
 			}
 			mu.Lock()
-			if id == -1 {
+			if id == -1 || sameID {
 				id = -int64(r.ID) // resolved below through the request ordinal
 			}
 			ran[id] = append(ran[id], lbl)
@@ -326,12 +329,17 @@ func c03Table(vid int, v c03Vec, reqs []c03Route, sym *c03Sym) *c03Obs {
 	byID := map[int64]int{}
 	for i, rq := range reqs {
 		ids[i] = base + int64(i)*7
+		if sameID {
+			ids[i] = base
+		}
 		byID[ids[i]] = i
 		frames = append(frames, sym.request(rq, ids[i]))
 	}
-	if err := c.Send(frames...); err != nil {
-		o.Err = "send: " + err.Error()
-		return o
+	if !sameID {
+		if err := c.Send(frames...); err != nil {
+			o.Err = "send: " + err.Error()
+			return o
+		}
 	}
 	type ans struct {
 		n       int
@@ -343,6 +351,23 @@ func c03Table(vid int, v c03Vec, reqs []c03Route, sym *c03Sym) *c03Obs {
 	got := make([]ans, len(reqs))
 	stray := 0
 	pending := len(reqs)
+	if sameID {
+		// one request at a time: send, read its final answer, go on with the same message id
+		pending = 0
+		for i := range reqs {
+			if err := c.Send(frames[i]); err != nil {
+				o.Err = "send: " + err.Error()
+				return o
+			}
+			m, err := c.Recv(slowBudget.Timeout())
+			if err != nil {
+				slowBudget.Spent()
+				break
+			}
+			got[i].n++
+			got[i].tag, got[i].code, got[i].diag, got[i].idKnown = m.Tag, m.Code, m.Diag, m.ID == base
+		}
+	}
 	for pending > 0 {
 		m, err := c.Recv(slowBudget.Timeout())
 		if err != nil {
@@ -373,7 +398,7 @@ func c03Table(vid int, v c03Vec, reqs []c03Route, sym *c03Sym) *c03Obs {
 		if err != nil {
 			break
 		}
-		if i, ok := byID[m.ID]; ok {
+		if i, ok := byID[m.ID]; ok && !sameID {
 			got[i].n++
 		} else {
 			stray++
@@ -383,8 +408,10 @@ func c03Table(vid int, v c03Vec, reqs []c03Route, sym *c03Sym) *c03Obs {
 	defer mu.Unlock()
 	for i, rq := range reqs {
 		one := c03One{Req: rq, Ran: []c03Label{}, NFinal: got[i].n, MsgidOK: got[i].idKnown, Tag: got[i].tag, Code: int(got[i].code), Diag: got[i].diag}
-		one.Ran = append(one.Ran, ran[ids[i]]...)
-		one.Ran = append(one.Ran, ran[-int64(i+1)]...) // extended requests are keyed by ordinal
+		if !sameID {
+			one.Ran = append(one.Ran, ran[ids[i]]...)
+		}
+		one.Ran = append(one.Ran, ran[-int64(i+1)]...) // extended requests (and same-id clients) are keyed by ordinal
 		o.Obs = append(o.Obs, one)
 	}
 	o.UnbRan = append(o.UnbRan, unbRan...)
